@@ -159,7 +159,7 @@ def tlc(module, cfg, workers=None, timeout=600, env=None, simulate=None, depth=N
         coverage=False, extra=(), lib=None, deadlock=True, seed=None, dfs_queue=False):
     """Run TLC on spec `module` (path to .tla) with config `cfg` (path)."""
     meta = scratch('tlcmeta')
-    jopts = ['-XX:+UseParallelGC', '-Xmx12g']
+    jopts = ['-XX:+UseParallelGC', '-Xmx12g', '-Xss256m']
     libs = [SPEC] + ([lib] if lib else [])
     jopts.append('-DTLA-Library=' + os.pathsep.join(libs))
     if dfs_queue:
